@@ -119,7 +119,7 @@ fn weights(mode: &str) -> [usize; 31] {
         "c02" | "c16" => [5, 3, 8, 8, 6, 6, 10, 6, 3, 6, 5, 2, 2, 1, 8, 2, 1, 0, 1, 0, 0, 0, 0, 0, 0, 0, 0, 0, 0, 0, 0],
         "c05" => [2, 1, 2, 2, 1, 1, 2, 1, 1, 1, 0, 0, 0, 0, 0, 0, 8, 8, 8, 8, 0, 0, 0, 0, 0, 0, 0, 0, 0, 0, 0],
         "c07" => [4, 2, 5, 5, 4, 4, 6, 3, 1, 3, 2, 1, 1, 1, 0, 0, 2, 0, 1, 0, 0, 12, 6, 0, 3, 0, 0, 0, 6, 0, 3],
-        "c08" => [4, 2, 5, 5, 4, 4, 6, 3, 1, 3, 2, 1, 1, 0, 0, 0, 1, 0, 1, 0, 14, 0, 0, 0, 0, 0, 0, 0, 12, 0, 0],
+        "c08" => [4, 2, 5, 5, 4, 4, 6, 3, 1, 3, 2, 1, 1, 2, 0, 0, 1, 0, 1, 0, 14, 0, 0, 0, 0, 0, 0, 0, 12, 0, 0],
         "c10" => [3, 2, 4, 4, 3, 3, 5, 5, 4, 3, 2, 1, 1, 0, 1, 1, 1, 1, 0, 0, 12, 6, 4, 5, 5, 4, 4, 4, 4, 0, 5],
         "c11" => [4, 2, 5, 5, 4, 4, 6, 3, 1, 3, 2, 1, 1, 0, 0, 0, 2, 0, 1, 0, 0, 0, 0, 0, 14, 0, 0, 0, 0, 0, 0],
         "c12" => [4, 2, 5, 5, 4, 4, 6, 3, 1, 3, 2, 1, 1, 0, 0, 0, 2, 0, 1, 0, 0, 0, 0, 0, 0, 8, 8, 8, 0, 0, 0],
@@ -1093,7 +1093,8 @@ fn fresh_answer(order: &[usize], pool: &[BddPtr], smoothed: &[bool], nv: usize, 
 pub fn rand_cfg(rng: &mut Rng, nmax: usize, mode: &str) -> SegCfg {
     // C02 wants table growth in almost every segment; C16 is driven by lock-step (see main)
     let n0 = match mode {
-        "c01" | "c02" => rng.range(nmax.saturating_sub(3).max(1), nmax),
+        // c08: builders that start with fewer variables and grow (new_var / new_pos / new_neg) before they smooth
+        "c01" | "c02" | "c08" => rng.range(nmax.saturating_sub(3).max(1), nmax),
         _ => nmax,
     };
     let order = rng.perm(n0);
